@@ -1,4 +1,7 @@
 import XtModel.Lemmas.TomlOrder
+import XtModel.Props.C11
+import XtModel.Props.C18
+import XtModel.Props.Json
 
 /-!
 # C01 — Cross-format value fidelity
@@ -94,5 +97,13 @@ example : reorder (.tbl [(1, .tbl []), (2, .scalar 0)]) = .tbl [(2, .scalar 0), 
 #print axioms toml_reorder_idempotent
 #print axioms toml_written_eq_reorder_partial
 #print axioms toml_k4_counterexample
+
+#print axioms Xt.Props.C11.transcode_faithful
+#print axioms Xt.Props.C11.valuepath_faithful
+#print axioms Xt.Props.C18.msgpack_roundtrip
+#print axioms Xt.Props.C18.decode_depth_irrelevant
+#print axioms Xt.Props.Json.json_roundtrip
+#print axioms Xt.Props.Json.json_roundtrip_floats
+#print axioms Xt.Props.Json.json_spellings_partial
 
 end Xt.Props.C01
